@@ -160,6 +160,7 @@ pub struct TreeStats {
     pub ids: usize,
     pub max_depth: usize,
     pub if_else: usize,
+    pub nested_starts: usize,
 }
 
 // ---- recording visitors ----
@@ -370,6 +371,41 @@ fn split(ev: &[Ev]) -> (Vec<Ev>, Vec<(String, Vec<IdEv>)>) {
 
 pub fn check_function(f: &mut LocalFunction, origin: &str) -> Result<TreeStats, Failure> {
     let entry = f.entry_block();
+    let mut st = check_from(f, entry, origin, "")?;
+    // the traversals take the sequence to start from: started at a nested
+    // sequence they must cover exactly that subtree
+    let mut nested = Vec::new();
+    nested_seqs(f, entry, &mut nested);
+    if !nested.is_empty() {
+        let mut picks = vec![nested[0], nested[nested.len() / 2], nested[nested.len() - 1]];
+        picks.dedup();
+        for id in picks {
+            check_from(f, id, origin, ":nested-start")?;
+            st.nested_starts += 1;
+        }
+    }
+    Ok(st)
+}
+
+fn nested_seqs(f: &LocalFunction, seq: InstrSeqId, out: &mut Vec<InstrSeqId>) {
+    if out.len() > 4096 {
+        return;
+    }
+    for (i, _) in f.block(seq).instrs.iter() {
+        let subs: Vec<InstrSeqId> = match i {
+            Instr::Block(b) => vec![b.seq],
+            Instr::Loop(l) => vec![l.seq],
+            Instr::IfElse(ie) => vec![ie.consequent, ie.alternative],
+            _ => vec![],
+        };
+        for s in subs {
+            out.push(s);
+            nested_seqs(f, s, out);
+        }
+    }
+}
+
+fn check_from(f: &mut LocalFunction, entry: InstrSeqId, origin: &str, tag: &str) -> Result<TreeStats, Failure> {
     let mut st = TreeStats::default();
     let mut refev = Vec::new();
     reference(f, entry, &mut refev, 1, &mut st);
@@ -394,7 +430,7 @@ pub fn check_function(f: &mut LocalFunction, origin: &str) -> Result<TreeStats, 
                 .position(|(a, b)| a != b)
                 .unwrap_or(structure.len().min(ref_structure.len()));
             return Err(Failure::new(
-                format!("dfs_in_order:{}:event-sequence", style),
+                format!("dfs_in_order:{}:event-sequence{}", style, tag),
                 format!(
                     "event #{}: traversal {:?} vs reference {:?} ({} vs {} events) [{}]",
                     i,
@@ -417,7 +453,7 @@ pub fn check_function(f: &mut LocalFunction, origin: &str) -> Result<TreeStats, 
                 "wrong-id-reported"
             };
             return Err(Failure::new(
-                format!("dfs_in_order:{}:{}", style, kind),
+                format!("dfs_in_order:{}:{}{}", style, kind, tag),
                 format!("at {}: reported ids {:?}, reference {:?} [{}]", got.0, got.1, want.1, origin),
             ));
         }
@@ -473,7 +509,7 @@ pub fn check_function(f: &mut LocalFunction, origin: &str) -> Result<TreeStats, 
                 detail = "traversal reported instructions or sequences the reference walk does not reach".into();
             }
             return Err(Failure::new(
-                format!("dfs_pre_order_mut:{}:{}", style, kind),
+                format!("dfs_pre_order_mut:{}:{}{}", style, kind, tag),
                 format!("{} [{}]", detail, origin),
             ));
         }
@@ -529,11 +565,12 @@ pub fn check(_ctx: &Ctx, input: &Input) -> CaseResult {
         total.ids += st.ids;
         total.max_depth = total.max_depth.max(st.max_depth);
         total.if_else += st.if_else;
+        total.nested_starts += st.nested_starts;
     }
     out.nontrivial = nt;
     out.label("source:parsed");
     if nt {
-        out.sample = Some(json!({"origin": p.origin, "instructions": total.instrs, "entity_operands": total.ids, "max_depth": total.max_depth, "if_else": total.if_else}));
+        out.sample = Some(json!({"origin": p.origin, "instructions": total.instrs, "entity_operands": total.ids, "max_depth": total.max_depth, "if_else": total.if_else, "traversals_started_at_nested_sequences": total.nested_starts}));
     }
     Ok(out)
 }
